@@ -1,4 +1,5 @@
 import RichModel.Model.Wrap
+import RichModel.Model.Style
 import RichModel.Gen.CellWidths
 import RichModel.Drv.Proto
 /-
@@ -112,6 +113,67 @@ def orUnmodelled (o : Option String) : String := o.getD "unmodelled"
 
 def encNats (l : List Nat) : String := toString l.length ++ ":" ++ " ".intercalate (l.map toString)
 
+/-! ### the same with rich's real `Style` algebra (C06 model): atomic styles are given by their fields -/
+
+/-- one atomic style of the request: `fg;attrs;set;link` (`N` = none; fg = number of a standard colour) -/
+def decAtom? (s : String) : Option Style :=
+  match s.splitOn ";" with
+  | [fg, atr, st, lk] => do
+    let fg ← decOptNat? fg
+    let at' ← decNat? atr
+    let st ← decNat? st
+    let lk ← (if lk == "N" then some none else (decStr? lk).map some)
+    let color : Option Color := fg.map (fun n => { name := [], type := ColorType.standard, number := some n })
+    pure { color := color, bgcolor := none, attributes := at', setAttributes := st, link := lk,
+           hash := ⟨color, none, some at', some st, lk⟩,
+           isNull := !(color.isSome || st != 0 || strTruthy lk), styleDef := none }
+  | _ => none
+
+def decAtoms? (s : String) : Option (List Style) :=
+  if s.isEmpty then some [] else (s.splitOn "|").mapM decAtom?
+
+def atomOf (tbl : List Style) (k : Nat) : Style := tbl.getD k Style.null
+
+/-- `Style.combine(styles)` = `sum(iter_styles, next(iter_styles))` -/
+def combineReal (tbl : List Style) : S → Style
+  | [] => Style.null
+  | x :: rest => rest.foldl (fun acc k => Style.add StyleVariant.fixed acc (atomOf tbl k)) (atomOf tbl x)
+
+/-- the style `get_style_at_offset` computes: `get_style(self.style).copy()` then `+=` every covering span -/
+def atOffsetReal (tbl : List Style) : S → Style
+  | [] => Style.null
+  | x :: rest => rest.foldl (fun acc k => Style.add StyleVariant.fixed acc (atomOf tbl k)) (atomOf tbl x).copy
+
+def algReal (tbl : List Style) : StyleAlg S :=
+  { null := [0], comb := fun l => l.flatten,
+    eqv := fun a b => Style.eq (atOffsetReal tbl a) (atOffsetReal tbl b) }
+
+/-- what `Style.__eq__` compares: `fg/attrs/set/link` -/
+def encKey (st : Style) : String :=
+  let fg := match st.color with | some c => (match c.number with | some n => toString n | none => "?") | none => "N"
+  let lk := match Style.linkVal st.link with | some l => encStr l | none => "N"
+  s!"{fg}/{st.attributes}/{st.setAttributes}/{lk}"
+
+def encSpansReal (tbl : List Style) (l : List (Span S)) : String :=
+  "/".intercalate (l.map (fun sp => s!"{sp.start},{sp.stop},{encKey (atOffsetReal tbl sp.style)}"))
+
+def encRenderReal (tbl : List Style) (r : Except PyErr (List (Text.RSeg S))) : String :=
+  match r with
+  | .error e => encErr e
+  | .ok segs => "/".intercalate (segs.map (fun s =>
+      encStr s.text ++ "~" ++ (match s.styles with
+        | none => "-"
+        | some ids => encKey (combineReal tbl ids.flatten))))
+
+def encTRReal (tbl : List Style) (t : T) : String :=
+  ";".intercalate [encStr t.plain, toString t.length, encKey (atOffsetReal tbl t.style), encSpansReal tbl t.spans]
+    ++ "@" ++ encRenderReal tbl (t.render)
+
+def ansTextsReal (tbl : List Style) (r : Except PyErr (List T)) : String :=
+  match r with
+  | .ok l => "ok:" ++ toString l.length ++ "#" ++ "|".intercalate (l.map (encTRReal tbl))
+  | .error e => encErr e
+
 def handlers : List (String × (List String → String)) := [
   -- words(text): count:start,end,word|…
   ("wrap_words", fun a => match a with
@@ -155,6 +217,19 @@ def handlers : List (String × (List String → String)) := [
       let ts ← decOptNat? ts
       let nw ← decOptBool? nw
       if t.length < 0 then none else pure (ansTexts (wrap v cw alg t w j o ts nw))
+    | _ => "bad-args"),
+  -- the same with real Style objects: first argument the table of atomic styles
+  ("wrap_wrap_real", fun a => match a with
+    | [tbl, v, t, w, j, o, ts, nw] => orUnmodelled do
+      let tbl ← decAtoms? tbl
+      let v ← decWVariant? v
+      let t ← decText? t
+      let w ← decNat? w
+      let j ← decJustify? j
+      let o ← decOverflow? o
+      let ts ← decOptNat? ts
+      let nw ← decOptBool? nw
+      if t.length < 0 then none else pure (ansTextsReal tbl (wrap v cw (algReal tbl) t w j o ts nw))
     | _ => "bad-args")
 ]
 
